@@ -1560,6 +1560,13 @@ func (a *Authenticator) negotiateSecurity(negotiation *SecurityNegotiation) erro
 	// Find compatible authentication method - server preference order
 	negotiation.NegotiatedAuth = AuthNone
 	for _, serverAuth := range negotiation.ServerConfig.AuthMethods {
+		// A method this build cannot perform (the PASSWORD stub, an unknown name) is
+		// not a candidate: counting it as "compatible" commits both sides to an
+		// authentication phase that can only fail, instead of falling back to an
+		// unauthenticated session (PREFERRED) or a graceful denial (REQUIRED).
+		if !serverAuth.Implemented() {
+			continue
+		}
 		for _, clientAuth := range negotiation.ClientConfig.AuthMethods {
 			if serverAuth == clientAuth {
 				negotiation.NegotiatedAuth = serverAuth
